@@ -1962,6 +1962,11 @@ class Executor:
         x = self.operand(st, frame, ins['args'][0])
         if self.m.kind(x.t) != 'map':
             return Val(ins['t'], [], py=('range', x, None))
+        tc = getattr(self.topframe, 'contract', None)
+        if tc is not None and 'deterministic' in tc.flags:
+            # the result of this function must not depend on the order in which a map is visited: no map is ranged over
+            self.oblige(st, frame, 'determinism', self.site_label(frame, 'maprange', ins), z3.BoolVal(False), tuple(tc.props),
+                        ins.get('line', 0), 'range over a map in a function declared deterministic')
         self.iter_counter += 1
         iid = self.iter_counter
         u, K, V = self.map_parts(x.t)
